@@ -765,10 +765,12 @@ class Image:
             )
             if reverse_axis:
                 origin[axis] = self.dimensions[index_counter]
-        self.origin = darsia.Coordinate(origin)
 
         if return_image:
+            metadata["origin"] = origin
             return type(self)(img=self.img.copy(), **metadata)
+        else:
+            self.origin = darsia.Coordinate(origin)
 
     # ! ---- Arithmetics
 
